@@ -74,6 +74,21 @@ class _Lock:
         self.f.close()
 
 
+_HELD = {}
+
+
+def hold(name, shared=False):
+    """Take a lock that is kept until this process exits (re-entrant per process). Used so that two check
+    processes never rebuild/run the same harness binary at the same time, and so that runs against a scratch
+    copy of the repository (VERIF_REPO) never overlap with runs against /repo (they share coq/Gen and build/)."""
+    if name in _HELD:
+        return
+    os.makedirs(BUILD, exist_ok=True)
+    f = open(os.path.join(BUILD, "." + name + ".hold"), "w")
+    fcntl.flock(f, fcntl.LOCK_SH if shared else fcntl.LOCK_EX)
+    _HELD[name] = f
+
+
 # --------------------------------------------------------------------------------------------
 # Coq
 # --------------------------------------------------------------------------------------------
@@ -233,6 +248,7 @@ def coq_check_props(pid, extra_targets=(), timeout=3000):
 def ocaml_build(name, extracted, driver, out=None):
     """Compile build/extract/<extracted>.ml(+.mli) with comp driver into build/bin/<name>.
     extracted: list of module basenames under build/extract (in dependency order)."""
+    hold("bin-" + name)
     bdir = os.path.join(BUILD, "ocaml_" + name)
     os.makedirs(bdir, exist_ok=True)
     os.makedirs(os.path.join(BUILD, "bin"), exist_ok=True)
@@ -261,6 +277,7 @@ def ocaml_build(name, extracted, driver, out=None):
 def cxx_build(name, src, san="asan", extra=(), compiler="g++", timeout=900):
     """Compile a harness against /repo's *current* headers. Always recompiles."""
     os.makedirs(os.path.join(BUILD, "bin"), exist_ok=True)
+    hold("bin-" + name)
     out = os.path.join(BUILD, "bin", name)
     cmd = [compiler] + CXX_BASE + SAN[san] + list(extra) + [src, "-o", out]
     if san == "tsan" or "-pthread" in extra:
@@ -417,6 +434,7 @@ LIFETIME_KINDS = {"leak-object", "leak-block", "use-dead", "construct-over-live"
 class Check:
     def __init__(self, pid, argv=None):
         self.pid = pid
+        hold("repo-mode", shared=(REPO == "/repo"))
         argv = sys.argv[1:] if argv is None else argv
         self.tier = os.environ.get("VERIF_TIER", "quick")
         self.replay = None
